@@ -12,7 +12,7 @@ FXT = 'Fx<Result<Resp, RpcError>>'
 
 RULES = client_table.TABLE_RULES + [
     # R2 pin erasure in bodies
-    Rule('R2:as-mut', r'self\.as_mut\(\)\.', 'self.', why='A-pin: re-borrow of the pinned self'),
+    Rule('R2:as-mut', r'self\s*\.as_mut\(\)\s*\.', 'self.', flags=re.M | re.S, why='A-pin: re-borrow of the pinned self'),
     # R3 accessor inlining (accessor bodies are checked by ACCESSOR_GUARDS below)
     Rule('R3:transport_pin_mut', r'self\s*\.transport_pin_mut\(\)', 'self.transport', flags=re.M | re.S, why='accessor = projection of field transport'),
     Rule('R3:in_flight_requests', r'self\s*\.in_flight_requests\(\)', 'self.in_flight_requests', flags=re.M | re.S, why='accessor = projection of field in_flight_requests'),
@@ -309,17 +309,17 @@ def dispatch_parts():
               hints=[
                   ('.insert_request(request_id, ctx, span.clone(), response_completion)', '''
                       let ghost g_chan = response_completion.chan();
-                      let ghost g_msg = request;
-                                            proof { assert(is_req_for(g_msg, request_id)); }
                   ''', 'before'),
                   ('Poll::Ready(Some(Ok(())))', '''
                       proof {
-                          if let ClientMessage::Request(m) = g_msg {
-                              if self.transport@.sent.len() == old(self).transport@.sent.len() + 1 {
+                          if self.transport@.sent.len() == old(self).transport@.sent.len() + 1 {
+                              let gm = self.transport@.sent.last();
+                              if let ClientMessage::Request(m) = gm {
+                                  assert(is_req_for(gm, m.id));
                                   assert(self.in_flight_requests@ =~= old(self).in_flight_requests@.insert(m.id, CEntry { ctx: m.context, chan: g_chan })); // @C01,C07,C18
-                              } else {
-                                  assert(self.in_flight_requests@ =~= old(self).in_flight_requests@); // @C09
                               }
+                          } else {
+                              assert(self.in_flight_requests@ =~= old(self).in_flight_requests@); // @C09
                           }
                       }
                   ''', 'before'),
@@ -440,6 +440,59 @@ def guard_parts():
         ]),
     ]
 
+
+CALL_IMPL = r'impl<Req, Resp> Channel<Req, Resp> where Req: RequestName,'
+
+
+def call_parts():
+    return [
+        TypeItem(SRC, 'struct', 'Channel', rules=[
+            Rule('R5:to-dispatch', r'mpsc::Sender<DispatchRequest<Req, Resp>>', 'call_models::ToDispatch<Req, Resp>', 1, why='prelude model of the request queue sender'),
+            Rule('R5:canc', r'cancellation: RequestCancellation', 'cancellation: guard_models::RequestCancellation', 1, why='prelude model'),
+            Rule('R5:next-id', r'Arc<AtomicUsize>', 'call_models::NextId', 1, why='prelude model of the id counter'),
+        ]),
+        Impl("impl<'a, Resp> ResponseGuard<'a, Resp>", fx_type='GFx', qual='ResponseGuard', parts=[
+            Fn(SRC, r"impl<Resp> ResponseGuard<'_, Resp>", 'response', fx=True, tags='C03',
+               rules=[
+                   Rule('R5:await-rx', r'\(&mut self\.response\)\.await', 'self.response.recv(Tracked(fx)).await', 1, where='body', why='awaiting the oneshot receiver (model: recv)'),
+                   Rule('R5:recv-error', r'oneshot::error::RecvError \{ \.\. \}', 'call_models::RecvError { .. }', 1, where='body', why='prelude model'),
+                   Rule('R2b:mut-self-sig', r'\(mut self', '(self', 1, where='sig', why='`mut self` by value is written as a rebinding (Verus: mut self unsupported)'),
+                   Rule('R2b:mut-self-body', r'\bself\b', 'this', '+', where='body', why='see R2b:mut-self-sig'),
+               ],
+               pre='let mut this = self;',
+               drops_at_end=['this'],
+               ensures='''
+                 // C03: once the receiver has produced (a response, or the dispatcher's death), the guard is disarmed:
+                 // the call awaits its own channel, closes it, and queues NO cancellation
+                 final(fx).log == old(fx).log.push(GEffect::Await { chan: old(self.response).chan() }).push(GEffect::CloseRx { chan: old(self.response).chan() }), // @C03
+               '''),
+        ]),
+        Impl('impl<Req, Resp> Channel<Req, Resp>', fx_type='GFx', qual='Channel', parts=[
+            Fn(SRC, CALL_IMPL, 'call', fx=True, tags='C01,C03,C18',
+               rules=[
+                   Rule('R1:span-current', r'let span = Span::current\(\);', 'let span = Span::current();', 1, where='body', why='(identity) span is opaque'),
+                   Rule('R1:span-record', r'^[ \t]*span\.record\("rpc\.trace_id", tracing::field::display\(ctx\.trace_id\(\)\)\);\n', '', 1, where='body', why='A-tracing: span field'),
+                   Rule('R5:oneshot-channel', r'oneshot::channel\(\)', 'call_models::oneshot_channel()', 1, where='body', why='prelude model'),
+                   Rule('R5:fetch-add', r'self\.next_request_id\.fetch_add\(1, Ordering::Relaxed\)', 'self.next_request_id.fetch_add(1)', 1, where='body', why='prelude model of the atomic counter'),
+                   Rule('R14b:try-drop', r'\.await\n\s*\.map_err\(\|mpsc::error::SendError\(_\)\| RpcError::Shutdown\)\?;',
+                        '.await { Ok(()) => {}, Err(_) => { let mut response_guard = response_guard; response_guard.drop(Tracked(fx)); return Err(RpcError::Shutdown); } }', 1, where='body', flags=re.M | re.S,
+                        why='`X.map_err(|SendError(_)| Shutdown)?` written out with the implicit drop of the armed guard on the error return'),
+                   Rule('R2b:mut-param', r'mut ctx: context::Context', 'ctx0: context::Context', 1, where='sig', why='`mut` parameter of an async fn written as a rebinding (Verus limitation)'),
+                   Rule('R14b:try-head', r'self\.to_dispatch\n\s*\.send\(', 'match self.to_dispatch.send(', 1, where='body', why='see R14b:try-drop'),
+               ],
+               pre='let mut ctx = ctx0;',
+               ensures='''
+                 // C01 (A-pair as a postcondition): the sender handed to the dispatch under the allocated id is the sender of the very
+                 // receiver this call then awaits; C03: the guard exists (armed) before the request is enqueued, and is disarmed after receipt
+                 r is Ok ==> exists|id: u64, chan: int, c: context::Context| final(fx).log == old(fx).log.push(GEffect::Enqueue { id, chan, ctx: c }).push(GEffect::Await { chan }).push(GEffect::CloseRx { chan })
+                     && c.deadline == ctx0.deadline, // @C01,C03,C07
+                 // C03: if the dispatch is gone the call fails fast with Shutdown and cleans up after itself
+                 r matches Err(e) ==> exists|id: u64, chan: int, c: context::Context| (final(fx).log == old(fx).log.push(GEffect::Enqueue { id, chan, ctx: c }).push(GEffect::Await { chan }).push(GEffect::CloseRx { chan })
+                     || final(fx).log == old(fx).log.push(GEffect::Enqueue { id, chan, ctx: c }).push(GEffect::CloseRx { chan }).push(GEffect::CancelMsg { id })), // @C03,C09
+               '''),
+        ]),
+    ]
+
 ACCESSOR_GUARDS = [
     # (fn name, regex its body must match) -- R3 is only sound while the accessor is the bare projection
     ('in_flight_requests', r'\{\s*self\.as_mut\(\)\.project\(\)\.in_flight_requests\s*\}'),
@@ -450,8 +503,8 @@ ACCESSOR_GUARDS = [
 
 
 def unit():
-    return Unit('client', prelude=['base.rs', 'time.rs', 'delay_queue.rs', 'oneshot_tx.rs', 'trace_models.rs', 'transport.rs', 'server_error.rs', 'client_queues.rs', 'cancellations.rs', 'client_guard.rs'],
-                parts=client_table.parts() + dispatch_parts() + guard_parts(), rules=RULES,
+    return Unit('client', prelude=['base.rs', 'time.rs', 'delay_queue.rs', 'oneshot_tx.rs', 'trace_models.rs', 'transport.rs', 'server_error.rs', 'client_queues.rs', 'cancellations.rs', 'client_guard.rs', 'client_call.rs'],
+                parts=client_table.parts() + dispatch_parts() + guard_parts() + call_parts(), rules=RULES,
                 fx_fns=client_table.FX_CALLS + [r'\.complete\(', r'self\.pump_read__closure\(', r'\.pump_read\(', r'\.pump_write\(', r'\.poll_write_request\(', r'\.shut_down_with_terminal_error\(', r'\.poll_expired\((?=cx, \|\|)'],
-                fx_prims=[r'response_completion\.send\(', r'self\.response\.close\(', r'self\.cancellation\.cancel\('], fx_type='Fx<Res>',
+                fx_prims=[r'response_completion\.send\(', r'self\.response\.close\(', r'self\.cancellation\.cancel\(', r'response_guard\.response\(', r'self\.to_dispatch\.send\('], fx_type='Fx<Res>',
                 accessor_guards=[(SRC, IMPL, n, rx) for n, rx in ACCESSOR_GUARDS])
